@@ -416,6 +416,38 @@ def errFmtAddAgg : Err := some "addAgg <avg|count|delta|derive|last|max|min|stde
 /-- imperatives.go `errFmtAddRoute` -/
 def errFmtAddRoute : Err := some "addRoute <type> <key> [prefix/sub/regex=,..]  <dest>  [<dest>[...]]"
 
+/-! ### what og-rek hands to input/pickle.go -/
+/-- a decoded pickle value, tagged with the Go dynamic type the handler switches on (all sized integer types are `int`, both
+float widths `float`; anything else — None, bool, dict, … — is `other`) -/
+inductive PyVal where
+  | str (b : Bytes)
+  | int (z : Int)
+  | big (z : Int)
+  | float (bits : F64)
+  | tuple (l : List PyVal)
+  | list (l : List PyVal)
+  | other
+  deriving Inhabited
+namespace Lib
+/-- `v, ok := x.(string)` etc. -/
+def asString : PyVal → Bytes × Bool | .str b => (b, true) | _ => ([], false)
+def asTuple : PyVal → List PyVal × Bool | .tuple l => (l, true) | _ => ([], false)
+def asList : PyVal → List PyVal × Bool | .list l => (l, true) | _ => ([], false)
+end Lib
+/-- `fmt.Sprintf("%d" / "%f" / "%.0f", v)` on a decoded value: Go's formatting is external; `Crng.FloatFmt` is its validated model -/
+structure Fmt where
+  d : PyVal → Bytes
+  f : PyVal → Bytes
+  f0 : PyVal → Bytes
+/-- `input.Dispatcher` -/
+structure DispatcherI where
+  Dispatch : Bytes → Res Unit
+  id : Nat := 0
+/-- `*input.Pickle` (with the formatting functions it uses) -/
+structure PickleP where
+  dispatcher : DispatcherI
+  fmt : Fmt
+
 /-- package-level functions of other packages that translated code calls and that are modelled elsewhere -/
 structure Env where
   /-- `m20.ValidatePacket(buf, legacyLevel, m20Level)` = (key, val, ts, err) -/
